@@ -16,7 +16,7 @@ func serveMeta(run *report.Run) {
 
 func init() {
 	checks["C06"] = func(run *report.Run) error {
-		run.Rule = "histories of 1–5 requests on one container; 0–3 container, 0–2 service and 0–2 route filters (the service's filters registered before its routes, after them, after Container.Add, or interleaved with the routes) of kind pass/stop/replace(new Request+Response)/middleware(HttpMiddlewareHandlerToFilter wrapping the writer), scripts that write, set headers and attributes, panic; all six entry points, and on a third of the containers a RouteSelector of the harness around the built-in router that refuses one path with a plain error value (not a ServiceError: Spec.c06RouterErrorHolds, the container filters around nothing); every stage records the attributes, parameters, selected route path and response wrappers it sees; Spec.c06Holds (the event list Spec.chainLog demands) is evaluated on every real log; non-trivial = more than one stage ran"
+		run.Rule = "histories of 1–5 requests on one container; 0–3 container, 0–2 service and 0–2 route filters (the service's filters registered before its routes, after them, after Container.Add, or interleaved with the routes) of kind pass/stop/replace(new Request+Response)/middleware(HttpMiddlewareHandlerToFilter wrapping the writer), scripts that write, set headers and attributes, panic; in half of the containers RouteBuilder values are used for more than one ws.Route call (Method / Path / To said anew for the next route of the WebService — a third of the routes carry the previous route's filters and then their own —, the last route of a WebService removed with RemoveRoute and registered again from its builder, before or after Container.Add), and a third of the containers have a registration history (a throw-away WebService added and removed again before / after the table's WebServices, the last WebService removed and added again) before the judged requests; all six entry points, and on a third of the containers a RouteSelector of the harness around the built-in router that refuses one path with a plain error value (not a ServiceError: Spec.c06RouterErrorHolds, the container filters around nothing); every stage records the attributes, parameters, selected route path and response wrappers it sees; Spec.c06Holds (the event list Spec.chainLog demands) is evaluated on every real log; non-trivial = more than one stage ran"
 		serveMeta(run)
 		n := sizes(run, 700, 14000)
 		serve.SmallPayloads = true // the subject is the stage log, not the coding
@@ -32,7 +32,7 @@ func init() {
 		return serve.CheckConcurrent(run, p, serve.GenOpts{Router: "curly", PanicPct: 1}, n/2, 6)
 	}
 	checks["C07"] = func(run *report.Run) error {
-		run.Rule = "same generator as C06; payloads of 0 B–270 KB in 1–6 chunks, Accept-Encoding from a grammar (gzip, deflate, both orders, q-values, identity, x-gzip, upper case, garbage, absent), prior Content-Encoding on the writer, container/route encoding switches, four compressor providers behind a ledger; every coded body is decoded with compress/gzip or compress/zlib to EOF (a missing trailer is an error); Spec.c07Holds is evaluated on every real response"
+		run.Rule = "same generator as C06; payloads of 0 B–270 KB in 1–6 chunks, Accept-Encoding from a grammar (gzip, deflate, both orders, q-values, identity, x-gzip, upper case, garbage, absent), prior Content-Encoding on the writer, container/route encoding switches, four compressor providers behind a ledger; the same requests 3x concurrently (held together at the first container filter) on a container and provider that first served every request to a client whose connection breaks after 0-47 body bytes: each answer's coding projection must be the sequential one and the provider's books in order; every coded body is decoded with compress/gzip or compress/zlib to EOF (a missing trailer is an error); Spec.c07Holds is evaluated on every real response"
 		serveMeta(run)
 		n := sizes(run, 700, 14000)
 		p := serve.PropSpec{ID: "C07", SpecKey: "C07", Proj: serve.ProjCoding, Known: func(sp map[string]string) string {
@@ -47,16 +47,18 @@ func init() {
 		if serve.WitnessF09() {
 			run.KnownHits["F09"]++
 		}
-		return nil
+		// "decoding the body yields the bytes written" for responses that are in flight at the same
+		// moment, on a container and provider that served clients whose connection broke before
+		return serve.CheckConcurrentAfterFaults(run, serve.PropSpec{ID: "C07", Proj: serve.ProjCodingNoLedger}, serve.GenOpts{Router: "curly", PanicPct: 1}, n/2, 6)
 	}
 	checks["C10"] = func(run *report.Run) error {
-		run.Rule = "same generator as C06 with a higher panic rate (every filter before/after passing control on, handlers before/after partial output, plain handlers), recovery on/off, custom and default recover handler, encoding on/off, all entry points, histories mixing panicking and normal requests; recover() around the entry point; panic VALUES: strings, error values, http.ErrAbortHandler, restful.ServiceError values, ints; panics raised INSIDE route selection (an If-condition of a matching route panics while the router runs under the container's read lock); ledger provider (acquire/release balance, double release, object handed out twice); Spec.c10Holds is evaluated on every real observation; after every history a writer operation (Container.Add + Remove of a throw-away WebService) under a watchdog (no lock left held), and with recovery on every request served twice in immediate succession must be answered byte for byte the same (the library's own recover report included); plus 6 fixed regression cases on the HandleWithFilter chain (the former witness of the repaired finding F18: no escape, recover handler once, its status, balanced ledger, c10Holds)"
+		run.Rule = "same generator as C06 with a higher panic rate (every filter before/after passing control on, handlers before/after partial output, plain handlers), recovery on/off, custom and default recover handler, encoding on/off, all entry points, histories mixing panicking and normal requests; recover() around the entry point; panic VALUES: strings, error values, http.ErrAbortHandler, restful.ServiceError values, ints; panics raised INSIDE route selection (an If-condition of a matching route panics while the router runs under the container's read lock); in half of the configurations route functions and filters READ the request's entity (Request.ReadEntity of a JSON document, plain / gzip / deflate encoded, into an entity type whose UnmarshalJSON panics in a third of the reads: a panic raised inside the library's own entity decoding); ledger provider (acquire/release balance over compressing writers AND decompressing readers, double release, object handed out twice); Spec.c10Holds is evaluated on every real observation; after every history a writer operation (Container.Add + Remove of a throw-away WebService) under a watchdog (no lock left held), and with recovery on every request served twice in immediate succession must be answered byte for byte the same (the library's own recover report included); plus 6 fixed regression cases on the HandleWithFilter chain (the former witness of the repaired finding F18: no escape, recover handler once, its status, balanced ledger, c10Holds)"
 		serveMeta(run)
 		n := sizes(run, 700, 14000)
 		// no known class: F18 (HandleWithFilter without recovery) was repaired by a0e838d, a
 		// falsifying case on that path is a violation like any other
 		p := serve.PropSpec{ID: "C10", SpecKey: "C10", Proj: serve.ProjPanic}
-		if err := serve.Check(run, p, serve.GenOpts{Router: "curly", PanicPct: 10}, n, 6, "curly"); err != nil {
+		if err := serve.Check(run, p, serve.GenOpts{Router: "curly", PanicPct: 10, Bodies: true}, n, 6, "curly"); err != nil {
 			return err
 		}
 		// the former witness of F18 and its neighbours are regression cases that must hold
